@@ -244,3 +244,86 @@ Example repaired_on_witness :
   = [(91, 100); (90, 100); (100, 99); (99, 0)] /\
   length (published (run 7 init_header (init {| t_smhp := 3; t_height := 3 |}) [EForge NoCrash; EForge NoCrash])) = 1%nat.
 Proof. split; vm_compute; reflexivity. Qed.
+
+(* ------------------------------------------------------------------ several generators on one node *)
+Definition proj (g : N) (s : mst) : st :=
+  {| disk := mdisk s g; node := mnode s; syncing := msyncing s; published := signed_by g (mpublished s) |}.
+
+Lemma init_header_gen : forall d t g h info, init_header d t g = Some (h, info) -> gen h = g.
+Proof.
+  intros d t g h info H. pose proof (init_header_cases d t g) as Hc. rewrite H in Hc. cbv zeta in Hc.
+  destruct Hc as (-> & _). reflexivity.
+Qed.
+
+Lemma mstep_inv : forall s e, (forall g, Inv g (proj g s)) -> forall g, Inv g (proj g (mstep init_header s e)).
+Proof.
+  intros s e Hall g. specialize (Hall g) as Hg.
+  destruct e as [who c|t|b|]; cbn [mstep].
+  - destruct (msyncing s) eqn:Esy; [exact Hg|].
+    destruct (init_header (mdisk s who) (mnode s) who) as [[h info]|] eqn:Eh; [|exact Hg].
+    pose proof (init_header_gen _ _ _ _ _ Eh) as Hgen.
+    destruct (N.eq_dec g who) as [->|Hne].
+    + (* the forging generator: its projection makes the single-generator step *)
+      pose proof (step_inv who (proj who s) (EForge c) Hg) as Hs.
+      unfold proj in Hs. cbn [step disk node syncing published] in Hs. rewrite Esy, Eh in Hs.
+      destruct c; unfold proj, upd; cbn [mdisk mnode msyncing mpublished signed_by filter].
+      * rewrite N.eqb_refl, Hgen, N.eqb_refl. exact Hs.
+      * exact Hg.
+      * rewrite N.eqb_refl. exact Hs.
+    + (* any other generator: untouched *)
+      assert (E1 : (g =? who) = false) by (apply N.eqb_neq; exact Hne).
+      assert (E2 : (gen h =? g) = false) by (rewrite Hgen; apply N.eqb_neq; congruence).
+      destruct c; unfold proj, upd; cbn [mdisk mnode msyncing mpublished signed_by filter]; rewrite ?E1, ?E2; try exact Hg.
+      * destruct Hg as [A B C]. unfold proj in *. cbn [disk node syncing published] in *. constructor; assumption.
+      * destruct Hg as [A B C]. unfold proj in *. cbn [disk node syncing published] in *. constructor; assumption.
+  - destruct Hg as [A B C]. constructor; assumption.
+  - destruct Hg as [A B C]. constructor; assumption.
+  - destruct Hg as [A B C]. constructor; assumption.
+Qed.
+
+Lemma mrun_inv : forall evs s, (forall g, Inv g (proj g s)) -> forall g, Inv g (proj g (mrun init_header s evs)).
+Proof.
+  induction evs as [|e evs IH]; intros s H g; cbn [mrun fold_left]; [apply H|].
+  apply IH. apply mstep_inv. exact H.
+Qed.
+
+(* several enabled keys, any interleaving of their forge ticks with crashes, tip changes, syncing and restarts: the
+   headers signed by EACH generator are pairwise non-contradicting *)
+Lemma never_self_contradicting_multi : forall t0 evs g,
+  let s := mrun init_header (minit t0) evs in
+  follower_ge (signed_by g (mpublished s)) /\ pairwise_noncontradicting (signed_by g (mpublished s)).
+Proof.
+  intros t0 evs g s.
+  assert (H0 : forall g', Inv g' (proj g' (minit t0))) by (intros g'; constructor; cbn; [constructor|intros p []|reflexivity]).
+  pose proof (mrun_inv evs _ H0 g) as [Hfol _ _]. fold s in Hfol. cbn [proj published] in Hfol.
+  split; [exact Hfol|apply follower_ge_never_flagged; exact Hfol].
+Qed.
+
+(* and, since headers of different generators never contradict, ALL headers signed on the node *)
+Lemma never_contradicting_multi_all : forall t0 evs b1 b2,
+  let s := mrun init_header (minit t0) evs in
+  In b1 (mpublished s) -> In b2 (mpublished s) -> b1 <> b2 -> contradicting b1 b2 = false.
+Proof.
+  intros t0 evs b1 b2 s H1 H2 Hne. destruct (N.eq_dec (gen b1) (gen b2)) as [E|E].
+  - destruct (never_self_contradicting_multi t0 evs (gen b1)) as [_ Hp]. fold s in Hp. apply Hp; [| |exact Hne].
+    + apply filter_In. split; [exact H1|apply N.eqb_refl].
+    + apply filter_In. split; [exact H2|apply N.eqb_eq; congruence].
+  - apply different_generators_never. exact E.
+Qed.
+
+(* a single shared in-memory copy of "the last info" instead of the per-address record (one cache slot for all keys):
+   B generates 12, restart + switch to a better shorter chain, A generates 10, B generates 11 against A's record *)
+Definition hdr_shared_cache (cache : option geninfo) (d : option geninfo) (t : tip) (g : N) :=
+  init_header (match cache with Some i => Some i | None => d end) t g.
+
+Lemma shared_cache_refuted :
+  exists b1 b2 : bh, gen b1 = gen b2 /\ b1 <> b2 /\ contradicting b1 b2 = true /\
+    (* B's first header, from its own record *)
+    init_header None {| t_smhp := 5; t_height := 11 |} 2 = Some (b1, Build_geninfo 12 5 0) /\
+    (* after the restart A generated (10,5,0); B's slot at tip 10 with the cache holding A's record *)
+    hdr_shared_cache (Some (Build_geninfo 10 5 0)) (Some (Build_geninfo 12 5 0)) {| t_smhp := 5; t_height := 10 |} 2
+      = Some (b2, Build_geninfo 11 5 10).
+Proof.
+  exists (Build_bh 12 2 0 5), (Build_bh 11 2 10 5). split; [reflexivity|]. split; [discriminate|].
+  split; [vm_compute; reflexivity|]. split; vm_compute; reflexivity.
+Qed.
